@@ -724,6 +724,13 @@ func c12Seqs(args []string) error {
 		}
 		obs := [][][]int{}
 		res := [][]int{}
+		// a panic of the table under test while it is operated or observed is an observation, not a harness failure
+		defer func() {
+			if p := recover(); p != nil {
+				id++
+				nw.write(obj{"id": id, "set": b2i(isSet), "ops": append([]int{}, ops...), "obs": obs, "res": res, "panic": fmt.Sprint(p)})
+			}
+		}()
 		for n, c := range ops {
 			r := []int{}
 			switch {
